@@ -18,14 +18,14 @@ PROPS = {
               'are compared with FIPS 186-4 / RFC 8017 reference models (ECDSA, RSA) or with the metamorphic rule (unchanged '
               'values accept, altered authenticated values reject, legal malleations accept); distinct = (scheme, fault set, '
               'verdict, expectation, mode)'),
-        stages=[('protosim', 'A', 2400, 200, 60000, 2400, {})]),
+        stages=[('protosim', 'A', 14000, 200, 400000, 2400, {})]),
     'C06': dict(
         level='exploration',
         rule=('protosim: seeded runs of interleaved encryption / key-agreement / sharing sessions over a faulty wire; outputs '
               'are compared with reference models (RFC 8017 OAEP, KDF2 over python point arithmetic, integer sums mod n, '
               'Lagrange interpolation) evaluated on what was actually delivered; distinct = (scheme, fault set, outcome, '
               'parameter class)'),
-        stages=[('protosim', 'A', 2400, 200, 60000, 2400, {})]),
+        stages=[('protosim', 'A', 14000, 200, 400000, 2400, {})]),
     'C07': dict(
         level='exploration',
         rule=('codecsim: seeded runs of ENC/FAULT/DEC/CAPW/BNSTR/RDSTR ops over a faulty store; every decode of a damaged '
@@ -33,7 +33,7 @@ PROPS = {
               'known tag and length) that re-encode identically; distinct = (type, last fault kind, outcome class, length) '
               'for damaged decodes plus (type, format, generator) for clean round trips'),
         stages=[
-            ('codecsim', 'A', 12000, 120, 600000, 1500, {}),
+            ('codecsim', 'A', 30000, 150, 1500000, 1800, {}),
         ]),
     'C08': dict(
         level='fault_enumeration',
@@ -44,6 +44,12 @@ PROPS = {
               '(op, curve) baselines and (op, signalled?, leaked?) failure outcomes'),
         stages=[
             ('allocsim', 'D', 1400, 200, 6000, 2400, {}),
+            # capacity faults: the same op table on the static-allocation build with operands at and beyond the precision
+            ('allocsim', 'A', 1500, 60, 60000, 600, {}),
+            # sanitizers as monitors inside the other engines (same seeds as their own checks)
+            ('codecsim', 'A', 6000, 60, 200000, 600, {}),
+            ('protosim', 'A', 4000, 60, 40000, 600, {}),
+            ('drbgsim', 'A', 6000, 30, 200000, 300, {}),
         ]),
     'C15': dict(
         level='exploration',
@@ -63,6 +69,7 @@ PROPS = {
             ('errsim', 'A', 300000, 60, 6000000, 900, {}),
             ('errsim', 'D', 40000, 40, 1000000, 600, {}),
             ('ctxsim', 'A', 320, 150, 30000, 1500, {}),
+            ('thrsim', 'T', 400, 120, 30000, 1500, {}),
         ]),
 }
 
